@@ -12,7 +12,7 @@ I32MIN = -(2**31)
 I64MAX = 2**63 - 1
 I64MIN = -(2**63)
 U64 = 2**64 - 1
-AMOUNTS = (1, 2, 2**31 - 2, 2**31 - 1, 2**31, 2**32 - 2, 2**32 - 1, 2**32, 2**63, 2**64, 2**70)
+AMOUNTS = (1, 2, 2**31 - 2, 2**31 - 1, 2**31, 2**32 - 2, 2**32 - 1, 2**32, 2**62, 2**63 - 1, 2**63, 2**64 - 1, 2**64, 2**70)
 
 
 def clamp(v, lo, hi):
@@ -123,7 +123,11 @@ class C16Saturate(Scenario):
                                            f"{half}", sig)
 
     def compare(self, what, sig):
-        cells, total = self.read_cells()
+        try:
+            cells, total = self.read_cells()
+        except Exception as e:
+            raise Violation("export_failed", f"after {what} the structure can no longer be exported: "
+                                             f"{type(e).__name__}: {e} (elements_added={self.o.elements_added})", sig)
         if cells != self.cells:
             bad = [(i, self.cells[i], cells[i]) for i in range(len(cells)) if cells[i] != self.cells[i]][:4]
             raise Violation("cell_wrong", f"after {what}: (cell, expected, found) {bad}", sig)
